@@ -14,8 +14,12 @@ scenario; nothing here reads a clock or id().
 
 from __future__ import annotations
 
+import array  # noqa: F401 - imported here so that helper threads never import while the simulation runs
 import builtins
 import errno
+import fcntl  # noqa: F401
+import select  # noqa: F401
+import termios  # noqa: F401
 import hashlib
 import io
 import os
